@@ -223,19 +223,22 @@ def run_job(job):
 
 def run_sp_iszero(job):
     """The probabilistic zero test _is_zero (used when l/2 > k >= 8 and p = 3 mod 4): for a == 0 it is always right; for
-    a != 0 it errs only if all k quadratic-residue coins agree (2^-k): the seeded runs must be right."""
+    a != 0 it errs exactly when all k quadratic-residue coins agree (probability 2^-k by design).  That event is part of the
+    protocol, not a defect, so the check runs at a production-size k = 30 (SecInt(64)), where the seeded runs never meet it
+    (an earlier version used k = 8 and 440 runs, which meets the 2^-8 event most of the time: a false alarm of mine, corrected)."""
     from mc import sp
     part = Part()
-    mpc, seam = sp.setup(sec_param=8, no_prss=True)
-    T = mpc.SecInt(18)
-    for v in [0, 1, -1, 2, 3, 255, -256, 2 ** 17 - 1, -2 ** 17, 12345, -54321]:
-        for s in range(6 if job['tier'] == 'quick' else 40):
+    mpc, seam = sp.setup(sec_param=30, no_prss=True)
+    T = mpc.SecInt(64)
+    assert T.bit_length / 2 > 30 and T.field.order % 4 == 3
+    for v in [0, 1, -1, 2, 3, 255, -256, 2 ** 63 - 1, -2 ** 63, 12345, -54321, 2 ** 40 + 1]:
+        for s in range(3 if job['tier'] == 'quick' else 12):
             seam.begin('seeded', job['seed'] * 1000 + s, None)
             got = sp.opened(mpc, mpc.is_zero(T(v)))
             part.case(key=None)
             part.outcomes.add(got)
             if got != int(v == 0):
-                part.violation('C01:_is_zero', f'[sp/l18/k8] is_zero({v}) = {got} (seeded masks #{s})',
+                part.violation('C01:_is_zero', f'[sp/l64/k30] is_zero({v}) = {got} (seeded masks #{s})',
                                dict(engine='sp_iszero', v=v, s=s, seed=job['seed']))
     return part
 
